@@ -147,7 +147,7 @@ def check(run):
     _admt(run, prog, mi)
     _inputs_kept(run, mi)
     from ..cachekey import check_caches
-    check_caches(run, [mi], 'C20-K')
+    check_caches(run, [mi], 'C20-K', prog=prog)
 
 
 def _stencils(run, prog, mi):
